@@ -205,52 +205,56 @@ COOKIES = (None, 'io', 'sess', {'name': 'c', 'path': '/x'}, {'name': 'c', 'Secur
            {'name': 'c', 'SameSite': lambda: 'Strict'}, {'path': '/only'}, {'name': 'c', 'Secure': True, 'HttpOnly': True, 'Max-Age': '3600'})
 
 
-def _cookie(fl, ci, jsonp):
+def _cookie(fl, ci, jsonp, opens=1):
     c = COOKIES[ci]
-    sut = mk(fl, async_handlers=False, cookie=c)
+    # the server gets its own copy of the configuration (an implementation that mutates it must not change the oracle's table)
+    cfg = dict(c) if isinstance(c, dict) else c
+    sut = mk(fl, async_handlers=False, cookie=cfg)
     try:
-        r = sut.open('polling', extra='&j=0' if jsonp else '')
-        sut.settle()
-        st = dict(flavour=sut.flavour, cookie=repr(c) if not isinstance(c, dict) else sorted(c))
-        if not r.done or r.exc is not None or sut.status(r) != 200:
-            return fail(PROP, 'COOKIE-OPEN-FAILS', 'open with cookie=%r: status %r exc %r' % (c, sut.status(r) if r.done else None, r.exc), **st)
-        sid = sut.sids()[0]
-        sc = [v for k, v in sut.headers(r) if k.lower() == 'set-cookie']
-        if c is None:
-            if sc:
-                return fail(PROP, 'COOKIE-UNCONFIGURED', 'Set-Cookie %r without a configured cookie' % (sc,), **st)
-            return ''
-        if len(sc) != 1:
-            return fail(PROP, 'COOKIE-MISSING', '%d Set-Cookie headers' % len(sc), **st)
-        parts = [p.strip() for p in sc[0].split(';')]
-        name = c if isinstance(c, str) else c.get('name', 'io')
-        if parts[0] != name + '=' + sid:
-            return fail(PROP, 'COOKIE-SID', 'cookie %r does not carry %s=%s' % (sc[0], name, sid), **st)
-        attrs = {'path': '/', 'SameSite': 'Lax'} if isinstance(c, str) else {k: v for k, v in c.items() if k != 'name'}
-        for k, v in attrs.items():
-            if callable(v):
-                v = v()
-            if v is True:
-                if k not in parts[1:]:
-                    return fail(PROP, 'COOKIE-ATTRIBUTE', 'flag %r missing in %r' % (k, sc[0]), **st)
-            elif v is False:
-                if any(p == k or p.startswith(k + '=') for p in parts[1:]):
-                    return fail(PROP, 'COOKIE-ATTRIBUTE', 'attribute %r configured False but present in %r' % (k, sc[0]), **st)
-            else:
-                if (k + '=' + v) not in parts[1:]:
-                    return fail(PROP, 'COOKIE-ATTRIBUTE', '%s=%s missing in %r' % (k, v, sc[0]), **st)
+        for nth in range(opens):
+            r = sut.open('polling', extra='&j=0' if jsonp else '')
+            sut.settle()
+            st = dict(flavour=sut.flavour, cookie=repr(c) if not isinstance(c, dict) else sorted(c), nth_open=nth)
+            if not r.done or r.exc is not None or sut.status(r) != 200:
+                return fail(PROP, 'COOKIE-OPEN-FAILS', 'open with cookie=%r: status %r exc %r' % (c, sut.status(r) if r.done else None, r.exc), **st)
+            sid = sut.sids()[nth]
+            sc = [v for k, v in sut.headers(r) if k.lower() == 'set-cookie']
+            if c is None:
+                if sc:
+                    return fail(PROP, 'COOKIE-UNCONFIGURED', 'Set-Cookie %r without a configured cookie' % (sc,), **st)
+                continue
+            if len(sc) != 1:
+                return fail(PROP, 'COOKIE-MISSING', '%d Set-Cookie headers' % len(sc), **st)
+            parts = [p.strip() for p in sc[0].split(';')]
+            name = c if isinstance(c, str) else c.get('name', 'io')
+            if parts[0] != name + '=' + sid:
+                return fail(PROP, 'COOKIE-SID', 'open #%d: cookie %r does not carry %s=%s' % (nth + 1, sc[0], name, sid), **st)
+            attrs = {'path': '/', 'SameSite': 'Lax'} if isinstance(c, str) else {k: v for k, v in c.items() if k != 'name'}
+            for k, v in attrs.items():
+                if callable(v):
+                    v = v()
+                if v is True:
+                    if k not in parts[1:]:
+                        return fail(PROP, 'COOKIE-ATTRIBUTE', 'flag %r missing in %r' % (k, sc[0]), **st)
+                elif v is False:
+                    if any(p == k or p.startswith(k + '=') for p in parts[1:]):
+                        return fail(PROP, 'COOKIE-ATTRIBUTE', 'attribute %r configured False but present in %r' % (k, sc[0]), **st)
+                else:
+                    if (k + '=' + v) not in parts[1:]:
+                        return fail(PROP, 'COOKIE-ATTRIBUTE', '%s=%s missing in %r' % (k, v, sc[0]), **st)
         return ''
     finally:
         sut.close()
 
 
 @cond(quick=dict(timeout=120), thorough=dict(timeout=300))
-def cookie(fl: int, ci: int, jsonp: bool) -> str:
+def cookie(fl: int, ci: int, jsonp: bool, opens: int) -> str:
     """
-    pre: 0 <= fl <= 1 and 0 <= ci < len(COOKIES)
+    pre: 0 <= fl <= 1 and 0 <= ci < len(COOKIES) and 1 <= opens <= 3
     post: _ == ''
     """
-    return verdict(untraced(_cookie, fl, ci, jsonp))
+    # up to three sessions opened on the SAME server: every one of them gets the configured cookie
+    return verdict(untraced(_cookie, fl, ci, jsonp, opens))
 
 
 OUTCOMES = (None, True, False, 0, '', 'no way', {'code': 7, 'why': 'x"y'}, [1, 'a'], 'RAISE', 1, 'RAISE-TYPEERROR', 0.0, [])
